@@ -122,7 +122,7 @@ pub fn check_case(case: &MapCase, st: &mut Stats) -> Check {
 pub fn run(ctx: &Ctx) -> Report {
     let mut rep = Report::new(ID, "exploration", ctx);
     rep.rule = "Cases: generated mappings x 30 typed traces each (throwables of mapped and unmapped classes incl. platform exceptions, with/without message; frames mapped/unmapped with any line; cause chains of depth 0..4), for mapper and cache. Oracle: structural — same cause-chain depth; each throwable is remap_throwable(t) or t itself; the frame list is the concatenation of remap_frame(f) if non-empty else [f]; nothing dropped. Agreement: for traces in canonical printed form (try_parse(print(T)) == Some(T)), print(typed(T)) == text API output for print(T). evaluations = typed remaps checked (+ text comparisons). Non-trivial = distinct traces with >=1 unmapped throwable or unresolved frame and >=1 resolved element.".into();
-    rep.run_stage("ast", || map_case(&cfg()), ctx.cases(15_000, 200_000), check_case);
+    rep.run_stage("ast", || map_case(&cfg()), ctx.cases(15_000, 600_000), check_case);
     rep
 }
 
